@@ -302,6 +302,18 @@ def check_pipeline(ctx, rep, rule='T-pipeline'):
                loc=b.loc(sd[0]['line']) if sd else b.loc(b.j['line_lo']), reason='provenance')
 
 
+def own_field(v, field, wrapped=True):
+    """v is (a transparent clone of) a reference to FIELD of the closure's own argument (the contour being mapped)"""
+    x = strip_upd(v)
+    if wrapped:
+        if not (x[0] in ('call', 'pcall') and TRANSPARENT.search(x[1]) and len(x[2]) == 1):
+            return False
+        x = strip_upd(x[2][0])
+    if x[0] == 'ref' and x[1][1] == (('f', field),) and x[1][0][0] == 'ext':
+        return any(y[0] == 'param' and y[1] == 2 for y in sym.walk(x[1][0][1]))
+    return False
+
+
 def check_assemble(ctx, rep, rule='T-assemble'):
     """polygons are emitted for exterior contours only; exterior ring = that contour's points; holes = points of the contours
     listed in that contour's hole_ids"""
@@ -348,13 +360,24 @@ def check_assemble(ctx, rep, rule='T-assemble'):
                     ex = strip_upd(e['args'][0])
                     ext_found = show(noepoch(ex))[:100]
                     s = show(noepoch(ex))
-                    ext_ok = ex[0] == 'agg' and ex[5].endswith('LineString') and re.search(r'clone\(&\*contour\.points\)', s) is not None
+                    ext_ok = ex[0] == 'agg' and ex[5].endswith('LineString') and len(ex[4]) == 1 and own_field(ex[4][0], 'points')
                 if e['callee'].endswith('::push') and 'Vec' in e['callee']:
                     s = show(noepoch(e['args'][1]))
                     holes_found = s[:160]
                     # LineString(contours[*hole_id as usize].points.clone()) with hole_id drawn from &contour.hole_ids
-                    it_ok = any(c['callee'].endswith('into_iter') and 'contour.hole_ids' in show(noepoch(c['args'][0])) for c in p.calls())
-                    holes_ok = it_ok and re.search(r'^LineString\{clone\(&\*index\(\*_1\.0, \(\*\(next\(.*\) as Some\)\.0 as usize\)\)\.points\)\}$', s) is not None
+                    it_ok = any(c['callee'].endswith('into_iter') and own_field(c['args'][0], 'hole_ids', wrapped=False) for c in p.calls())
+                    v = strip_upd(e['args'][1])
+                    holes_ok = False
+                    if it_ok and v[0] == 'agg' and v[5].endswith('LineString') and len(v[4]) == 1:
+                        cl = strip_upd(v[4][0])
+                        if cl[0] in ('call', 'pcall') and TRANSPARENT.search(cl[1]) and len(cl[2]) == 1:
+                            r = strip_upd(cl[2][0])
+                            if r[0] == 'ref' and r[1][1] == (('f', 'points'),) and r[1][0][0] == 'ext':
+                                ix = strip_upd(r[1][0][1])
+                                if ix[0] in ('call', 'pcall') and re.search(r'Index<.*>>::index$', ix[1]) and len(ix[2]) == 2:
+                                    from_env = any(x[0] == 'param' and x[1] == 1 for x in sym.walk(ix[2][0]))
+                                    from_iter = any(x[0] in ('call', 'pcall') and x[1].endswith('::next') for x in sym.walk(ix[2][1]))
+                                    holes_ok = from_env and from_iter
         rep.ob(rule, 'exterior-ring-from-own-points', ext_ok, 'the exterior ring must be a clone of the contour\'s own points; found %s' % ext_found,
                loc=bm.loc(bm.j['line_lo']) if bm else None, reason='provenance')
         rep.ob(rule, 'holes-from-own-hole_ids', holes_ok,
